@@ -11,10 +11,15 @@
      cmdarg  : VL [VN 0; VB name; VN lx] | VL [VN 1; tree]
      call    : VL [VN tag; fields...] in constructor order of Builders.opcall (tags 0..18)
    run (VL [VN 8; scope; dtree]) -> VL [decls...]   own declarations of every element of (NsScope.place scope dtree), document order
-     binding : VL [VB prefix; VB uri]    scope, decls : VL [binding...] (innermost first)    dtree : VL [decls; VL [dtree...]] *)
+     binding : VL [VB prefix; VB uri]    scope, decls : VL [binding...] (innermost first)    dtree : VL [decls; VL [dtree...]]
+   run (VL [VN 10; profile; VB mid; call]) -> VL [VL [tree...]; VL [VN hole...]; VN nvalues]   the carries tables of Spec/CarriesBase.v:
+        the request [wrap (fill (values c) (template p (erase c)))], the holes of the template, the number of values
+   run (VL [VN 11; VB mid; vcall])         -> the same for the vendor classes (Spec/CarriesVendor.v)
+   (entry point 9 is unused; the carries tables were renumbered 8 -> 10, 9 -> 11 when merged with the NsScope entry point 8) *)
 From NC Require Import Model.Base Model.Xml Model.Escape Model.Gating Model.Builders Glue.C09_glue.
 From NC Require Import Model.VendorBuilders.
 From NC Require Import Model.NsScope.
+From NC Require Import Spec.Template Spec.CarriesBase Spec.CarriesVendor.
 From Coq Require Import ZArith.
 
 Definition d_attr (v : val) : qname * bytes :=
@@ -231,6 +236,7 @@ Fixpoint d_dtree (v : val) : dtree :=
   | _ => DNode [] []
   end.
 Definition e_bindings (d : list binding) : val := VL (map (fun b => VL [VB (fst b); VB (snd b)]) d).
+Definition e_nat (n : nat) : val := VN (N.of_nat n).
 
 Definition run (v : val) : val :=
   match v with
@@ -249,6 +255,21 @@ Definition run (v : val) : val :=
   | VL [VN 5; VB s] => vbool (xml_chars_ok s)
   | VL [VN 6; VB mid; c] =>
       match d_vcall c with Some c' => e_vres (vbuild mid c') | None => verr 1 end
+  | VL [VN 10; p; VB mid; c] =>
+      match d_profile p, d_opcall c with
+      | Some p', Some c' =>
+          let t := template p' (erase c') in
+          VL [VL (map (fun op => e_tree (wrap p' mid op)) (fill (values c') t)); VL (map e_nat (holes t)); e_nat (length (values c'))]
+      | _, _ => verr 1
+      end
+  | VL [VN 11; VB mid; c] =>
+      match d_vcall c with
+      | Some c' =>
+          let t := vtemplate (verase c') in
+          VL [VL (map (fun op => e_tree (vwrap (vmode (vcall_prof c')) mid op)) (fill (vvalues c') t)); VL (map e_nat (holes t));
+              e_nat (length (vvalues c'))]
+      | None => verr 1
+      end
   | VL [VN 7; VN m; VB mid; c] =>
       match d_vcall c with
       | Some c' => e_vres (vbuild_under (if N.eqb m 0 then Prefixed else DefaultNs) mid c')
